@@ -123,6 +123,8 @@ QUICK = [
     ['P1', 'P1 S1+', 'PURGE'],
     ['P1 A1+', 'P1 S1+ T1+'],
     ['P1', 'S1+ P1', 'PURGE'],
+    ['P1', 'P1 P1', 'PURGE'],  # the same pointer twice in one datagram (goodbye + fresh copy in either order when the TTLs say so)
+    ['P1', 'P1+', 'PURGE'],  # the same pointer again with the other value of the cache-flush bit
 ]
 THOROUGH = [
     ['P1', 'P1', 'P1', 'PURGE'],
@@ -133,6 +135,8 @@ THOROUGH = [
     ['P1 Q1', 'Q1', 'PURGE'],
     ['P1 S1+ T1+ A1+', 'P1', 'PURGE', 'S1b+'],
     ['P2', 'P1 S1+', 'P2', 'PURGE'],
+    ['P1 P1', 'P1', 'PURGE'],
+    ['P1+', 'P1', 'PURGE'],
 ]
 PRESTART = [
     (['P1', 'P2', 'PURGE'], 1),
